@@ -133,3 +133,25 @@ bounded_check(name="c11-histories", props=["C11"], fn=c11_histories.run_seq, dom
               label="B3: every applicable sequence of <= 3 (thorough: <= 4) distinct changes out of 11 (edits, file move, folder move, creations, nested "
                     "edits); plain undo/redo against recorded snapshots; selective undo at every index x drop in {False, True} against the reference "
                     "dependency closure and a replay of the remaining changes on a fresh project")
+
+# ---- CPython cross-check of the trimming contract on a real History ------------------------------------------------------------------------
+def _xc_trim_domain(tier, seed):
+    for n in range(0, 7):
+        for m in range(-1, 8):
+            yield (n, m)
+
+
+def _xc_trim_build(case):
+    from rope.base.history import History
+    n, m = case
+    h = object.__new__(History)
+    h._undo_list = ["c%d" % i for i in range(n)]
+    h._redo_list = []
+    h._maxundos = m
+    h.current_change = None
+    return {"self": h}
+
+
+bounded_check(name="c11-trim-native", props=["C11", "C10"], contract="History._remove_extra_items", build=_xc_trim_build, domain=_xc_trim_domain, exhaustive=True,
+              env={"max_undos_of": lambda h: h.max_undos},
+              label="CPython cross-check: _remove_extra_items' contract on a real History: 0-6 recorded changes x limit -1..7 (limit 0 keeps nothing)")
